@@ -84,3 +84,165 @@ fn k_canary_must_fail_adss() {
   let x: u32 = kani::any();
   assert!(x.to_le_bytes()[0] != 9);
 }
+
+// ---------------------------------------------------------------------------------------------
+// D4 cut relation of `recover` (bounded obligation on the REAL function): Verus proves the tail
+// `recover__tail(s, shares)` and ASSUMES that the three-statement iterator prologue hands it
+// (clone of the FIRST element, the S components of ALL elements in order) and returns Err on an
+// empty collection.  Here the prologue runs for real; what it passes on is observed through stubs.
+
+fn noop_barrier<T: ?Sized>(_v: &T) {}
+
+static mut REC_CALLS: usize = 0;
+static mut REC_T: u32 = 0;
+static mut REC_N: usize = 0;
+static mut REC_TAG: [usize; 4] = [0; 4];
+static mut REC_RESULT_OK: bool = false;
+
+/// stands in for star_sharks::Sharks::recover: records the threshold and, per share in iteration
+/// order, its tag (= number of y coordinates)
+fn stub_sharks_recover<'a, T>(this: &star_sharks::Sharks, shares: T) -> Result<Vec<u8>, &'static str>
+where
+  T: IntoIterator<Item = &'a star_sharks::Share>,
+  T::IntoIter: Iterator<Item = &'a star_sharks::Share>,
+{
+  unsafe {
+    REC_CALLS += 1;
+    REC_T = this.0;
+    REC_N = 0;
+    for s in shares.into_iter() {
+      if REC_N < 4 { REC_TAG[REC_N] = s.y.len(); }
+      REC_N += 1;
+    }
+    if REC_RESULT_OK { Ok(vec![7u8; 24]) } else { Err("stub") }
+  }
+}
+
+static mut VER_CALLS: usize = 0;
+static mut VER_T: u32 = 0;
+static mut VER_MLEN: usize = 0;
+static mut VER_RLEN: usize = 0;
+static mut VER_J0: u8 = 0;
+#[allow(non_snake_case)]
+fn stub_verify(this: &Commune, J: &[u8; MAC_LENGTH]) -> Result<(), Box<dyn Error>> {
+  unsafe {
+    VER_CALLS += 1;
+    VER_T = this.A.threshold;
+    VER_MLEN = this.M.len();
+    VER_RLEN = this.R.len();
+    VER_J0 = J[0];
+  }
+  Err("stub".into())
+}
+
+/// share number `tag` (1..=3): tag y-coordinates, |C| = tag, |D| = tag + 3, J[0] = tag
+fn tagged_share(tag: usize, threshold: u32) -> Share {
+  // distinct evaluation points in DESCENDING order of tag (x = 4 - tag), so that any reordering by x
+  // is visible; y = `tag` zero elements
+  let mut y = Vec::with_capacity(3);
+  let mut i = 0;
+  while i < tag {
+    y.push(star_sharks::Fp::default());
+    i += 1;
+  }
+  let s = star_sharks::Share { x: star_sharks::Fp::from((4 - tag) as u64), y };
+  let mut j = [0u8; MAC_LENGTH];
+  j[0] = tag as u8;
+  Share { A: AccessStructure { threshold }, S: s, C: vec![0xAAu8; tag], D: vec![0x55u8; tag + 3], J: j, T: () }
+}
+
+fn cut_harness<const N: usize>(result_ok: bool) {
+  // three concrete prototype shares; position i holds a clone of prototype tags[i] (symbolic choice)
+  let p1 = tagged_share(1, 0);
+  let p2 = tagged_share(2, 0);
+  let p3 = tagged_share(3, 0);
+  let mut tags = [0usize; N];
+  let mut ths = [0u32; N];
+  let mut shares: Vec<Share> = Vec::with_capacity(N);
+  let mut i = 0;
+  while i < N {
+    let c: u8 = kani::any();
+    let th: u32 = kani::any();
+    let mut sh = if c == 0 { tags[i] = 1; p1.clone() } else if c == 1 { tags[i] = 2; p2.clone() } else { tags[i] = 3; p3.clone() };
+    sh.A = AccessStructure { threshold: th };
+    ths[i] = th;
+    shares.push(sh);
+    i += 1;
+  }
+  unsafe { REC_CALLS = 0; VER_CALLS = 0; REC_RESULT_OK = result_ok; }
+  let r = recover(&shares);
+  assert!(r.is_err());
+  unsafe {
+    if N == 0 {
+      assert!(REC_CALLS == 0 && VER_CALLS == 0);
+    } else {
+      assert!(REC_CALLS == 1);
+      assert!(REC_T == ths[0]);
+      assert!(REC_N == N);
+      let mut k = 0;
+      while k < N {
+        assert!(REC_TAG[k] == tags[k]);
+        k += 1;
+      }
+      if result_ok {
+        assert!(VER_CALLS == 1);
+        assert!(VER_T == ths[0]);
+        assert!(VER_MLEN == tags[0]);
+        assert!(VER_RLEN == tags[0] + 3);
+        assert!(VER_J0 == tags[0] as u8);
+      }
+    }
+  }
+  core::mem::forget(r);
+  core::mem::forget(shares);
+  core::mem::forget(p1);
+  core::mem::forget(p2);
+  core::mem::forget(p3);
+}
+
+/// prologue -> Sharks::recover: threshold of the FIRST share, S components of ALL shares in order;
+/// empty collection is an error before anything is called (0..3 shares, symbolic order/thresholds)
+#[kani::proof]
+#[kani::unwind(6)]
+#[kani::stub(star_sharks::Sharks::recover, stub_sharks_recover)]
+#[kani::stub(zeroize::optimization_barrier, noop_barrier)]
+fn k_recover_cut_shares() {
+  cut_harness::<2>(false);
+}
+#[kani::proof]
+#[kani::unwind(6)]
+#[kani::stub(star_sharks::Sharks::recover, stub_sharks_recover)]
+#[kani::stub(zeroize::optimization_barrier, noop_barrier)]
+fn k_recover_cut_empty() {
+  cut_harness::<0>(false);
+}
+#[kani::proof]
+#[kani::unwind(6)]
+#[kani::stub(star_sharks::Sharks::recover, stub_sharks_recover)]
+#[kani::stub(zeroize::optimization_barrier, noop_barrier)]
+fn k_recover_cut_shares_3() {
+  cut_harness::<3>(false);
+}
+
+// STROBE is irrelevant to WHICH share's fields are used: no-op key / recv_enc operations keep
+// symbolic Keccak out of the harness (recv_enc then leaves C and D unchanged, so lengths identify the share)
+fn stub_strobe_new(_proto: &[u8], _sec: SecParam) -> Strobe {
+  // never read: every operation applied to it in `recover` is stubbed
+  unsafe { core::mem::MaybeUninit::<Strobe>::uninit().assume_init() }
+}
+fn stub_strobe_key(_s: &mut Strobe, _data: &[u8], _more: bool) {}
+fn stub_strobe_recv_enc(_s: &mut Strobe, _data: &mut [u8], _more: bool) {}
+
+/// prologue -> tail: ciphertext, encrypted coins, MAC and threshold used after interpolation are
+/// those of the FIRST share (observed at Commune::verify)
+#[kani::proof]
+#[kani::unwind(6)]
+#[kani::stub(star_sharks::Sharks::recover, stub_sharks_recover)]
+#[kani::stub(Commune::verify, stub_verify)]
+#[kani::stub(strobe_rs::Strobe::new, stub_strobe_new)]
+#[kani::stub(strobe_rs::Strobe::key, stub_strobe_key)]
+#[kani::stub(strobe_rs::Strobe::recv_enc, stub_strobe_recv_enc)]
+#[kani::stub(zeroize::optimization_barrier, noop_barrier)]
+fn k_recover_cut_first() {
+  cut_harness::<2>(true);
+}
